@@ -227,7 +227,8 @@ def explore_c04(rng, tier, res, deep=False):
     odd = []
     for d in D:
         odd += [f"1.{d}", f"{d}.5", f"1e-{d}", f"1.5e{d}", f"1.5e-{d}", f"{d}", f"-{d}", f"1{d}", f"{d}e-1", f"{d}{d}.{d}{d}", f"1e{d}", f"0.{d}e1"]
-    odd += ["1_0", "1_0.5", "1.5_0", "0x10", "0b1", "0o7", "1e1.5", "1..5", "1.5.5", "1ee1", "1e--1", "1e+-1", "+1.5", "--1", "-+1", "1.5e", "1.e5",
+    odd += ["00", "-00", "00.5", "000e1", "-00E-1", "0000", "00e0", "-000.0", "00.0", "000", "0_0", "00e-1", "-00.5e1",
+            "1_0", "1_0.5", "1.5_0", "0x10", "0b1", "0o7", "1e1.5", "1..5", "1.5.5", "1ee1", "1e--1", "1e+-1", "+1.5", "--1", "-+1", "1.5e", "1.e5",
             ".5e1", "1e", "inf", "-inf", "Infinity", "nan", "NaN", "1.5f", "1L", "1j", "1,5", "1 .5", "1. 5", "1 e1", "1e 1", "- 1", "-.5", "1/2", "٣٫٥"]
     for sp in odd:
         qs.update([f"$[?@.a=={sp}]", f"$[?{sp}<@]", f"$[?@=={sp}&&@.b]", f"$[?length(@)>={sp}]", f"$[?match(@.a,{sp})]", f"$[{sp}]", f"$[{sp}:]", f"$[:{sp}]",
@@ -475,6 +476,11 @@ def explore_c13(rng, tier, res, deep=False):
         "compiles is applied to JSON values of every kind (as root and as child under test): find() must "
         "complete or raise a JSONPathError. Non-trivial = distinct string that does not compile."
     )
+    import termination
+
+    termination.stage(rng, tier, res)  # first: a scanner that does not terminate would hang everything below
+    if any("did not return" in v.get("what", "") for v in res.violations):
+        return
     n = sizes(tier, deep, 2500, 50000)
     qs = {garbage(rng) for _ in range(n)}
     # the longest strings of the quantifier (1024 characters) built from the shortest operands: flat chains of one
@@ -730,6 +736,16 @@ def explore_c19(rng, tier, res, deep=False):
         except Exception as exc:  # noqa: BLE001
             res.violations.append({"property": "C19", "query": q, "observed": "PY:" + type(exc).__name__ + ": " + str(exc)[:80], "expected": "a JSONPathError with an offset inside the query",
                                    "what": "compile() rejected the query with an exception that identifies no position in the query text"})
+    # query strings as Python holds them may contain surrogate code points (not Unicode scalar values, so outside the
+    # model's `Char`): judged on the real side alone — the printed line/column must still be those of the offset in the
+    # string that was passed
+    for sur in ("\ud83d\ude00", "\ud800", "\udc00\ud800", "\ud83d\ude00\ud83d\ude00"):
+        for tail in (",\n 01]", "\n.", "'\n, 'b' x]", "\n\n[?count(1) == 1]", " \n ]]"):
+            for head in ("$['", "$.", "$[?@.a == '", "$\n['"):
+                res.evaluations += 1
+                bad = judge_c19(env, jp, head + sur + ("'" if head.endswith("'") and not tail.startswith("'") else "") + tail)
+                if bad:
+                    res.violations.append(bad)
     out = model.run_batch_parallel(lines)
     for (q, off, got), o in zip(recs, out):
         if o != f"{got[0]} {got[1]}":
@@ -857,6 +873,11 @@ def explore_c12(rng, tier, res, deep=False):
         for _ in range(depth):
             cmpn = "!(" + cmpn + ")"
         qs += [f"$[?{cmpn}]", f"$[?{cmpn} || {neg}]"]
+    # string literals (not member names) that Unicode normalisation, case mapping or whitespace handling would rewrite
+    for lit in ["\u212b", "e\u0301", "\u2126", "\uf900", "\u1100\u1161", "\u00c5", "\ufb01", "\u1e9e", "\u0130", "\u00df", "a\u00a0b", " a ", "\u2028", "A", "\u03a3\u03c2", "\u0041\u030a"]:
+        for style in ("'", '"'):
+            l2 = style + lit + style
+            qs += [f"$[?@.unit == {l2}]", f"$[?{l2} != @]", f"$[?match(@.u, {l2})]", f"$[?length({l2}) == 1]", f"$[?@[{l2}] == {l2}]", f"$..[?search(@, {l2}) || @ == {l2}]"]
     qs += ["$[?@.a && @.a]", "$[?@.a || @.a]", "$[?(@.a) && ((@.a))]", "$[?1 == 1 && 1 == 1]", "$[?@.a == @.a]", "$[?!(!(@.a && @.a))]", "$[?@.a && @.b && @.a]",
            "$[-1,0,1]", "$[2,3,4]", "$[0,0]", "$['a','a']", "$[1:2]", "$[-1:0]", "$[0:1:1]", "$[?@.a < 1.0]", "$[?@.a == 2.0]", "$[?@.a == 250e-1]", "$[?@.a == 1e0]"]
     qs += ["$[?!(@.a == 1)]", "$[?!(@.a && @.b)]", "$[?(@.a || @.b) && @.c]", "$[?@.a || @.b && @.c]", "$[?!(!@.a)]",
